@@ -4,10 +4,10 @@ package main
 
 import (
 	"fmt"
-	"os"
 	"go/ast"
 	"go/token"
 	"go/types"
+	"os"
 	"sort"
 	"strings"
 
@@ -55,7 +55,7 @@ func (w *Walker) loop(s ast.Stmt, in []*State) []*State {
 			if fr != nil {
 				// counted loop `for i := 0; i < len(X); i++`: a range over X with key i
 				if id, x := countedFor(fr); id != nil {
-					if rs := w.eval(x, st); len(rs) == 1 && rs[0].t != nil && (rs[0].t.K == KField || rs[0].t.K == KLocal) {
+					if rs := w.eval(x, st); len(rs) == 1 && rs[0].t != nil && (rs[0].t.K == KField || rs[0].t.K == KLocal || rs[0].t.K == KParam) {
 						table, keyID, st = rs[0].t, id, rs[0].st
 					}
 				}
@@ -898,7 +898,7 @@ func (w *Walker) callInternalFull(call *ast.CallExpr, fn *FuncInfo, st *State, n
 				case "nil":
 					ts = append(ts, nilTerm)
 				case "nn":
-					t := fresh("ret")
+					t := fresh("ret:" + fn.Name + ":")
 					t.NonNil = true
 					ts = append(ts, t)
 				default:
